@@ -457,7 +457,12 @@ Definition or_comps (k0 : option cst) (stash : list comp) (sa : state) (ka : opt
         if Nat.eqb (remaining sa) (remaining sb) then (true, true)
         else keep_scan (items sa) (ist sa) (ist sb) in
       let stash' := stash ++ (if keep_a then cs_comps ca else []) ++ (if keep_b then cs_comps cb else []) in
-      kextend (match pick with inl true => kdrain ca | inl false => kdrain cb | inr _ => k0 end) stash'
+      (* only the hints that go to the stash are drained: a winner whose hints were NOT kept still carries them *)
+      kextend (match pick with
+               | inl true => if keep_a then kdrain ca else Some ca
+               | inl false => if keep_b then kdrain cb else Some cb
+               | inr _ => k0
+               end) stash'
     | _, _ => kextend (match pick with inl true => ka | inl false => kb | inr _ => k0 end) stash
     end
   end.
